@@ -58,6 +58,25 @@ def run(prop, tier):
             o = dobs[f["line"] - 1]
             print("EXTRA-VIOLATION module=DnsDiscovery clauses=%s mode=%s zones=%s got=%s" % (",".join(sorted(f["clauses"])), o["mode"], json.dumps(o["zones"])[:700], json.dumps(o["got"])[:500]))
     print("DnsDiscovery: %d histories exported by TLC, run on the real DnsDiscoveryAdapter, %d judged (%d unusable), %d failing" % (len(dcases), len(dobs) - len(dt.marked["UNUSABLE"]), len(dt.marked["UNUSABLE"]), len(dt.marked["FAIL"])))
+    # ---- GrpcStatus: the StatusData conversion of the gRPC status adapter, every case of the model against the real adapter
+    g = vlib.run_tlc("MC_GrpcStatus", "MC_GrpcStatus.cfg", wd, workers=1, timeout=600)
+    if not g.ok:
+        raise vlib.ToolError("TLC reports %s on MC_GrpcStatus.cfg:\n%s" % (g.violated, g.output[-2000:]))
+    hg = vlib.cargo_build("hx-grpc")
+    gcases = g.marked["REPLAY"]
+    ginp, goutp = os.path.join(wd, "gs_in.ndjson"), os.path.join(wd, "gs_obs.ndjson")
+    vlib.write_ndjson(ginp, gcases)
+    vlib.run_bin(hg, ["statusdata", "--in", ginp, "--out", goutp], timeout=900)
+    gobs = vlib.read_ndjson(goutp)
+    gt = vlib.run_tlc("Trace_GrpcStatus", "Trace_GrpcStatus.cfg", wd, workers=1, timeout=600, markers=("FAIL", "NOTCONSUMED"), env_extra={"TRACE": goutp}, java_opts=["-Xss1g"])
+    if not gt.ok or gt.marked["NOTCONSUMED"] or gt.distinct != len(gobs) + 1 or len(gobs) != len(gcases):
+        raise vlib.ToolError("Trace_GrpcStatus did not consume all records:\n%s" % gt.output[-2000:])
+    for f in gt.marked["FAIL"]:
+        bad += 1
+        if bad <= 12:
+            o = gobs[f["line"] - 1]
+            print("EXTRA-VIOLATION module=GrpcStatus clauses=%s service_answer=%s adapter_returned=%s" % (",".join(sorted(f["clauses"])), json.dumps({"has": o["has"], "d": o["d"]})[:500], json.dumps(o["got"])[:500]))
+    print("GrpcStatus: %d StatusData cases exported by TLC, run on the real GrpcStatusAdapter, %d failing" % (len(gobs), len(gt.marked["FAIL"])))
     # ---- Builtins (FixedStatus part; the localization part is judged under C03)
     b = vlib.run_tlc("MC_Builtins", "MC_Builtins.cfg", wd, workers=1, timeout=600)
     if not b.ok:
